@@ -430,11 +430,44 @@ class HPath:
 
 
 class HInterp:
-    def __init__(self, model, func, B):
+    def __init__(self, model, func, B, case=None):
         self.model = model
         self.func = func
         self.B = B
         self.depth = 0
+        # case = (r, hasblocks): interpret under  len % B == r  and  (len // B > 0) == hasblocks.  The 2B cases partition the
+        # inputs; inside a case every test on the residue / block count is decided and residue-bounded loops are unrolled.
+        self.case = case
+
+    def conc(self, t):
+        """Integer value of a scalar term under the case assumptions, or None."""
+        if self.case is None or isinstance(t, (BytesV, BlocksV)) or t is None:
+            return None
+        try:
+            x = nf(t)
+        except (AnalysisError, TypeError, IndexError, KeyError):
+            return None
+        r, hb = self.case
+        x = self._subst_case(x)
+        try:
+            x = nf(to_raw(x))
+        except (AnalysisError, TypeError, IndexError, KeyError):
+            return None
+        if x[0] == "c":
+            return x[1]
+        return None
+
+    def _subst_case(self, x):
+        r, hb = self.case
+        if not isinstance(x, tuple) or not x:
+            return x
+        if _is_residue(x, self.B):
+            return ("c", r)
+        if x[0] == "floordiv" and _is_nblocks(x, self.B) and not hb:
+            return ("c", 0)
+        if x[0] in ("c", "leaf"):
+            return x
+        return tuple(self._subst_case(y) if isinstance(y, tuple) else y for y in x)
 
     # ---- entry for a public function: returns [(assumptions, loop?, term)]
     def run_public(self):
@@ -469,7 +502,7 @@ class HInterp:
                 p.env[name] = tr(ty.bits, a)
             else:
                 raise HUndecided("parameter type of %s.%s" % (callee.name, name))
-        sub = HInterp(self.model, callee, self.B)
+        sub = HInterp(self.model, callee, self.B, self.case)
         sub.depth = self.depth + 1
         outs = sub.block(callee.body(), p)
         if len(outs) != 1 or outs[0][0] != "ret":
@@ -510,6 +543,9 @@ class HInterp:
             return [("ret", p, self.ev(s.value, p))]
         if isinstance(s, ast.If):
             tag = self.cond(s.test, p)
+            if tag[0] == "const":
+                body = s.body if tag[1] else s.orelse
+                return self.block(body, p) if body else [("fall", p, None)]
             outs = []
             for pol, body in ((True, s.body), (False, s.orelse)):
                 q = p.copy()
@@ -528,6 +564,10 @@ class HInterp:
         raise HUndecided("statement `%s`" % unparse(s, 50))
 
     def cond(self, t, p):
+        if self.case is not None:
+            c = self.cond_case(t, p)
+            if c is not None:
+                return ("const", c)
         if isinstance(t, ast.Compare) and len(t.ops) == 1:
             a = self.ev(t.left, p)
             b = self.ev(t.comparators[0], p)
@@ -566,8 +606,93 @@ class HInterp:
             return ("nonzero", nf(x), neg)
         raise HUndecided("condition `%s`" % unparse(t, 60))
 
+    def cond_case(self, t, p):
+        """Truth value of a test that the case assumptions decide, else None."""
+        if isinstance(t, ast.BoolOp):
+            vals = [self.cond_case(v, p) for v in t.values]
+            if isinstance(t.op, ast.And):
+                if any(v is False for v in vals):
+                    return False
+                return True if all(v is True for v in vals) else None
+            if any(v is True for v in vals):
+                return True
+            return False if all(v is False for v in vals) else None
+        if isinstance(t, ast.UnaryOp) and isinstance(t.op, ast.Not):
+            v = self.cond_case(t.operand, p)
+            return None if v is None else (not v)
+        if isinstance(t, ast.Compare) and len(t.ops) == 1:
+            try:
+                a = self.ev(t.left, p)
+                b = self.ev(t.comparators[0], p)
+            except HUndecided:
+                return None
+            va, vb = self.conc(a), self.conc(b)
+            o = t.ops[0]
+            if va is not None and vb is not None:
+                return {ast.Eq: va == vb, ast.NotEq: va != vb, ast.Lt: va < vb, ast.LtE: va <= vb, ast.Gt: va > vb, ast.GtE: va >= vb}.get(type(o))
+            # block count against a constant, knowing only that it is >= 1
+            r, hb = self.case
+            for x, vx, vy, flip in ((a, va, vb, False), (b, vb, va, True)):
+                try:
+                    isnb = not isinstance(x, (BytesV, BlocksV)) and _is_nblocks(nf(x), self.B)
+                except (AnalysisError, TypeError, IndexError, KeyError):
+                    isnb = False
+                if isnb and hb and vy is not None:
+                    # x >= 1
+                    ot = type(o)
+                    if flip:
+                        ot = {ast.Lt: ast.Gt, ast.Gt: ast.Lt, ast.LtE: ast.GtE, ast.GtE: ast.LtE}.get(ot, ot)
+                    if vy <= 0:
+                        return {ast.Gt: True, ast.GtE: True, ast.NotEq: True, ast.Eq: False, ast.Lt: False, ast.LtE: False}.get(ot)
+                    if vy == 1:
+                        return {ast.GtE: True, ast.Lt: False}.get(ot)
+            return None
+        if isinstance(t, (ast.Name, ast.Call, ast.BinOp, ast.Subscript)):
+            try:
+                v = self.conc(self.ev(t, p))
+            except HUndecided:
+                return None
+            if v is not None:
+                return v != 0
+            try:
+                x = self.ev(t, p)
+                if not isinstance(x, (BytesV, BlocksV)) and _is_nblocks(nf(x), self.B) and self.case[1]:
+                    return True
+            except (HUndecided, AnalysisError, TypeError, IndexError, KeyError):
+                return None
+        return None
+
+    def unroll(self, s, p, values):
+        live = [p]
+        outs = []
+        for v in values:
+            nxt = []
+            for cur in live:
+                cur.env[s.target.id] = C(v)
+                for r in self.block(s.body, cur):
+                    if r[0] == "fall":
+                        nxt.append(r[1])
+                    else:
+                        outs.append(r)
+            live = nxt
+        outs.extend(("fall", q, None) for q in live)
+        return outs
+
     def loop(self, s, p):
         it = s.iter
+        if self.case is not None and isinstance(s.target, ast.Name) and not s.orelse:
+            # a loop whose bounds the case decides is unrolled; a loop over the blocks of a block-less key does not run
+            if isinstance(it, ast.Call) and dotted(it.func) == "range" and 1 <= len(it.args) <= 3 and not it.keywords:
+                try:
+                    vals = [self.conc(self.ev(a, p)) for a in it.args]
+                except HUndecided:
+                    vals = [None]
+                if all(v is not None and abs(v) < 2 ** 31 for v in vals) and (len(vals) < 3 or vals[2] != 0):
+                    rng = range(*vals)
+                    if len(rng) <= 64:
+                        return self.unroll(s, p, list(rng))
+            if isinstance(it, ast.Name) and isinstance(p.env.get(it.id), BlocksV) and not self.case[1]:
+                return [("fall", p, None)]
         elem_w = None
         body_env_elem = None
         idxvar = None
